@@ -90,6 +90,11 @@ func (s *Syncer[H]) networkHead(ctx context.Context) (H, bool, error) {
 			sbjHead.Height(),
 		)
 
+		// the subjective head may have been advanced in the meantime by a concurrent caller
+		// sharing the same request, so report the current one rather than the stale snapshot
+		if head, lerr := s.localHead(ctx); lerr == nil && head.Height() > sbjHead.Height() {
+			return head, false, nil
+		}
 		return sbjHead, false, nil
 	}
 	// still check if even the newly requested head is not recent
